@@ -46,6 +46,7 @@ type byzantine struct {
 
 	partSets    map[string]consensus.PartSet // height/psid-hash -> parts seen on the wire
 	partSetKeys map[int64][]string
+	rawBlocks   map[int64][][]byte // height -> complete block encodings seen on the wire (valid proposals of anybody)
 }
 
 type altDecision struct {
@@ -72,7 +73,7 @@ type forgedInfo struct {
 func newByzantine(s *sim) *byzantine {
 	return &byzantine{s: s, alts: map[int64][]altDecision{}, known: map[string][]byte{}, precommit: map[int64]map[string][]pcItem{},
 		blockTS: map[string]int64{}, blockByH: map[int64][]string{}, bodyVotes: map[int64][]byte{}, forged: map[string]*forgedInfo{},
-		partSets: map[string]consensus.PartSet{}, partSetKeys: map[int64][]string{}}
+		partSets: map[string]consensus.PartSet{}, partSetKeys: map[int64][]string{}, rawBlocks: map[int64][][]byte{}}
 }
 
 var nilBlockID = codec.MustMarshalToBytes(1) // what a nil vote carries as block id: the encoded network id
@@ -146,6 +147,9 @@ func (b *byzantine) learn(sub module.ProtocolInfo, proto module.ProtocolInfo, da
 						if _, ok := b.blockTS[id]; !ok {
 							b.blockTS[id] = hf.Timestamp
 							b.blockByH[hf.Height] = append(b.blockByH[hf.Height], id)
+							if b.forged[hex.EncodeToString(ps.ID().Hash)] == nil {
+								b.rawBlocks[hf.Height] = append(b.rawBlocks[hf.Height], bs)
+							}
 							if _, ok := b.bodyVotes[hf.Height]; !ok {
 								b.bodyVotes[hf.Height] = bf.Votes
 							}
@@ -572,7 +576,7 @@ func (b *byzantine) forgeBlock(src *node, hf *block.V2HeaderFormat, bf *block.V2
 	info := &forgedInfo{property: b.forge, invalid: true, height: h}
 	switch b.forge {
 	case "C07":
-		kinds := []string{"height+1", "height-1", "previd-random", "previd-grandparent", "version", "timestamp+1", "timestamp-1", "timestamp=parent", "timestamp<parent"}
+		kinds := []string{"height+1", "height-1", "previd-random", "previd-grandparent", "version", "timestamp+1", "timestamp-1", "timestamp=parent", "timestamp<parent", "sibling-retimed", "sibling-retimed"}
 		k := kinds[t.Choose("forge.c07", len(kinds))]
 		info.kind = k
 		parentTS, haveParent := b.blockTS[hex.EncodeToString(hf.PrevID)]
@@ -596,6 +600,24 @@ func (b *byzantine) forgeBlock(src *node, hf *block.V2HeaderFormat, bf *block.V2
 				return nil, nil
 			}
 			if k == "timestamp+1" {
+				nh.Timestamp++
+			} else {
+				nh.Timestamp--
+			}
+		case "sibling-retimed":
+			// a block somebody proposed (and correct nodes imported) earlier at this height, with the
+			// same commit votes, re-proposed by this validator with only the timestamp (and proposer) changed
+			raws := b.rawBlocks[h]
+			if h <= 1 || len(raws) == 0 {
+				return nil, nil
+			}
+			ohf, obf, err := readBlock(raws[t.Choose("forge.sib", len(raws))])
+			if err != nil {
+				return nil, nil
+			}
+			nh, nb = *ohf, *obf
+			nh.Proposer = hf.Proposer
+			if t.Permille("forge.sib.dir", 500) {
 				nh.Timestamp++
 			} else {
 				nh.Timestamp--
